@@ -7,51 +7,3 @@ Proof.
   intros bs Hwf. rewrite (dg_decode_spec bs Hwf).
   destruct (rfc_dg_decode bs) as [[s p]|]; reflexivity.
 Qed.
-
-(* ---------------------------------------------------------------- QPACK string literals *)
-From H3V Require Import Gen.GenPrefixInt Model.PrefixInt Model.Huffman Model.PrefixString
-  Proofs.PrefixIntProofs Proofs.HuffmanDecodeProofs Base.BytesLemmas.
-From Coq Require Import ZifyBool ZifyNat ZifyN.
-
-Lemma pi_dec_loop_rest_wf : forall bs value power v r,
-  wf_bytes bs -> pi_dec_loop bs value power = Ok (v, r) -> wf_bytes r.
-Proof.
-  induction bs as [|b t IH]; intros value power v r Hwf H; cbn [pi_dec_loop] in H; [discriminate|].
-  apply wf_bytes_cons in Hwf as [_ Ht].
-  destruct (64 <=? power); [discriminate|].
-  destruct (2 ^ 64 <=? _); [discriminate|].
-  destruct (N.land b pi_dec_cont_mask =? 0).
-  - inversion H; subst. exact Ht.
-  - destruct (cmp_ge _ _ _); [discriminate|]. eapply IH; eauto.
-Qed.
-
-Lemma pi_decode_rest_wf size bs f v r : wf_bytes bs -> pi_decode size bs = Ok (f, v, r) -> wf_bytes r.
-Proof.
-  intros Hwf H. unfold pi_decode in H.
-  destruct (negb _); [discriminate|]. destruct bs as [|b t]; [discriminate|].
-  apply wf_bytes_cons in Hwf as [_ Ht].
-  destruct (pi_dec_mask_width <? size); [discriminate|].
-  destruct (8 <=? _); [discriminate|].
-  destruct (cmp_lt _ _ _).
-  - inversion H; subst. exact Ht.
-  - destruct (pi_dec_loop t _ _) as [[v' r']|e|s] eqn:L; try discriminate.
-    inversion H; subst. eapply pi_dec_loop_rest_wf; eauto.
-Qed.
-
-(* prefix_string::decode(size, buf) for the sizes h3 uses (8 and 4) and all others in 2..9 *)
-Lemma ps_decode_no_panic_c06 size bs : 2 <= size <= 9 -> wf_bytes bs -> is_panic (ps_decode size bs) = false.
-Proof.
-  intros Hs Hwf. unfold ps_decode.
-  destruct (size =? 0) eqn:E0; [lia|].
-  pose proof (pi_decode_no_panic (size - 1) bs ltac:(lia) Hwf) as P.
-  destruct (pi_decode (size - 1) bs) as [[[flags n] r]|e|s] eqn:D; [|destruct e; reflexivity|discriminate].
-  pose proof (pi_decode_rest_wf _ _ _ _ _ Hwf D) as Wr.
-  destruct (len r <? n) eqn:Hlen; [reflexivity|].
-  destruct (N.land flags 1 =? 0); [reflexivity|].
-  (* the size guard in front of the Huffman decoder (H1 / F18 repair) is what gives fits_u32 *)
-  match goal with |- is_panic (if ?c then _ else _) = false => destruct c eqn:G; [reflexivity|] end.
-  assert (F : fits_u32 (firstn (N.to_nat n) r)).
-  { unfold fits_u32, len in *. rewrite firstn_length. lia. }
-  pose proof (hpack_decode_no_panic (firstn (N.to_nat n) r) (wf_bytes_firstn _ _ Wr) F) as H.
-  destruct (hpack_decode _); [reflexivity|reflexivity|discriminate].
-Qed.
